@@ -669,6 +669,13 @@ theorem convolve2d_refines (data kernel : List F) (nx ny a b : Nat) (s : State F
   simp only [convStart, setS_same]
   exact rowsFold_replicate data kernel nx ny a b
 
+/-- cell `(p, q)` of the model's row-major output -/
+theorem convolve_getElem? (D K : Arr F) (nx ny nkx nky p q : Nat) (hp : p < nx) (hq : q < ny) :
+    (convolve D K nx ny nkx nky)[p * ny + q]? = some (convCell D K nx ny nkx nky (p : Int) (q : Int)) := by
+  unfold convolve
+  rw [List.getElem?_map, allCells_getElem? nx ny p q hp hq]
+  rfl
+
 /-- a state holding the two arrays and nothing else -/
 def convState (data kernel : List F) (nx ny nkx nky : Nat) : State F :=
   { (State.empty : State F) with
